@@ -255,6 +255,42 @@ PROPS = {
                  "read/write loops are outside the model"],
         assumptions=["the module timeout is 1 s in the harness; delays are chosen away from it (<= 400 ms or >= 1.7 s)"],
     ),
+    "C10": dict(
+        modules=["Whawty.Props.C10"],
+        suites=[("overlay", "v10")],
+        level_text="The dispatcher, its request channels, the upgrade queue and the hooks notification channel are a "
+                   "labelled transition system with one executable successor function; dispatcher_never_stuck (no "
+                   "reachable dispatcher deadlock for modes off / remote / local-with-non-blocking-enqueue, ALL "
+                   "capacities, client counts and interleavings), FIFO progress, responses to own client; and for the "
+                   "pinned blocking enqueue: deadlock_reached + stuck_forever (D5). The real agent is single-stepped "
+                   "through a gate Hasher: the observed execution order is replayed as a path of the transition system.",
+        rule="Schedules: the dispatcher is held inside a login, then a batch (0/3/9/10/11/14 updates x 1-4 logins with "
+             "upgradeable or current hashes, wrong passwords, adds) is launched and the dispatcher released one hasher "
+             "call at a time; modes off / local / remote with an unreachable and with a stalled (never answering) master; "
+             "watchdog 1.5 s (thorough 5 s) per step with a goroutine dump of the dispatcher; afterwards a probe request.",
+        trusted=[T_GO + ": channel semantics (FIFO, blocking send on a full channel, select/default) are what the "
+                 "transition system encodes", T_CRYPTO],
+        partial=["'eventually' needs fairness of Go's select and the OS scheduler: runtime hypotheses; the run observes "
+                 "completion under a watchdog", "hooks that hang are covered by C19's harness"],
+    ),
+    "C11": dict(
+        modules=["Whawty.Props.C11"],
+        suites=[("overlay", "v11"), ("overlay", "v11g")],
+        level_text="linCheck (Wing-Gong search re-validated by validLin) is sound: an accepted history has a "
+                   "linearization that contains every operation, respects real time and reproduces every response "
+                   "(validLin_spec); an internal upgrade of the repaired code leaves the abstract store unchanged "
+                   "(upgrade_preserves_spec), the pinned one reverts passwords (D6). Real concurrent histories of the "
+                   "agent (free-running clients with logical time stamps) are checked, and gated schedules whose exact "
+                   "execution order is observed are replayed in that order; final directory = final abstract state.",
+        rule="(a) 80 (2000) free-running histories: 2-6 client goroutines x 1-3 calls (authenticate / update / add / "
+             "remove / set-admin / list) on 4 overlapping users, upgrades off and local (records re-hashed under a "
+             "non-default set so that logins queue upgrades); (b) 48 (800) gated schedules of the D6 family (upgradeable "
+             "logins and updates of the same users in flight together). After quiescence the directory (users, admin "
+             "flags, which known password authenticates) must equal the linearization's final state and pass Check.",
+        trusted=[T_GO, T_CRYPTO, "logical clocks (one atomic counter) for invocation / response order"],
+        partial=["linCheck_complete (no linearizable history is rejected) is not proved; a rejection is reported as a "
+                 "correspondence disagreement", "cross-talk between SASL connections is covered by C05's concurrent batches"],
+    ),
     "C13": dict(
         modules=["Whawty.Props.C13"],
         level_text="Wire format, round trip, over-limit refusal, re-encode = consumed prefix, fragment "
